@@ -5,16 +5,19 @@
 From Tab Require Import Base.Ops Model.Core Model.Table Spec.History Spec.TableHist
      Proofs.CoreInv Proofs.CoreSim Proofs.CoreObs.
 
-Lemma core_ops_app h1 h2 : core_ops (h1 ++ h2) = core_ops h1 ++ core_ops h2.
+Section Generic.
+Context {A : Type}.
+
+Lemma core_ops_app (h1 h2 : list (gtop A)) : core_ops (h1 ++ h2) = core_ops h1 ++ core_ops h2.
 Proof. apply flat_map_app. Qed.
 
-Lemma trun_snoc h o : trun (h ++ [o]) = tstep (trun h) o.
+Lemma trun_snoc (h : list (gtop A)) o : trun (h ++ [o]) = tstep (trun h) o.
 Proof. unfold trun. rewrite fold_left_app. reflexivity. Qed.
 
-Lemma tspec_run_snoc h o : tspec_run (h ++ [o]) = tspec_step (tspec_run h) o.
+Lemma tspec_run_snoc (h : list (gtop A)) o : tspec_run (h ++ [o]) = tspec_step (tspec_run h) o.
 Proof. unfold tspec_run. rewrite fold_left_app. reflexivity. Qed.
 
-Lemma trun_core h : tb_core (trun h) = run (core_ops h).
+Lemma trun_core (h : list (gtop A)) : tb_core (trun h) = run (core_ops h).
 Proof.
   induction h as [|o h IH] using rev_ind; [reflexivity|].
   rewrite trun_snoc, core_ops_app. destruct o as [c|n a|n s]; cbn [core_ops flat_map app tstep].
@@ -23,7 +26,7 @@ Proof.
   - rewrite app_nil_r. destruct (has_column _ _); cbn [tb_core]; exact IH.
 Qed.
 
-Lemma tspec_core h : ts_sp (tspec_run h) = spec_run (core_ops h).
+Lemma tspec_core (h : list (gtop A)) : ts_sp (tspec_run h) = spec_run (core_ops h).
 Proof.
   induction h as [|o h IH] using rev_ind; [reflexivity|].
   rewrite tspec_run_snoc, core_ops_app. destruct o as [c|n a|n s]; cbn [core_ops flat_map app tspec_step].
@@ -32,12 +35,11 @@ Proof.
   - rewrite app_nil_r. destruct (_ <=? _); cbn [ts_sp]; exact IH.
 Qed.
 
-Lemma twf_snoc_inv h o : twf_hist (h ++ [o]) -> twf_hist h.
+Lemma twf_snoc_inv (h : list (gtop A)) o : twf_hist (h ++ [o]) -> twf_hist h.
 Proof. unfold twf_hist. rewrite core_ops_app. apply wf_prefix. Qed.
 
 (* ---- the column count never shrinks *)
 Section Mono.
-Context {A : Type}.
 Lemma resize_mono (st : Core.state A) n : t_ncols st <= t_ncols (resize_columns_at_least st n).
 Proof.
   unfold resize_columns_at_least. destruct (n <=? t_ncols st) eqn:E; [lia|].
@@ -123,7 +125,7 @@ Qed.
 End PropList.
 
 (* ---- Column(n) != nil exactly for n <= NColumns(), on every built table *)
-Lemma has_column_wf (h : list (op Cell.item)) n : wf_hist h -> has_column (run h) n = (n <=? ncols (run h)).
+Lemma has_column_wf (h : list (op A)) n : wf_hist h -> has_column (run h) n = (n <=? ncols (run h)).
 Proof.
   intros W. unfold has_column. rewrite (core_column h (Z.of_nat n) W).
   destruct (Nat.leb_spec n (ncols (run h))).
@@ -133,7 +135,7 @@ Proof.
     apply andb_false_r.
 Qed.
 
-Lemma props_inv h : twf_hist h ->
+Lemma props_inv (h : list (gtop A)) : twf_hist h ->
   PInv (tb_align (trun h)) (ts_align (tspec_run h)) (t_ncols (tb_core (trun h)))
   /\ PInv (tb_skip (trun h)) (ts_skip (tspec_run h)) (t_ncols (tb_core (trun h))).
 Proof.
@@ -159,7 +161,7 @@ Proof.
 Qed.
 
 (* ---- the refinement: what a renderer sees is what the history says *)
-Theorem table_view_spec : forall (f : Cell.item -> vcell) (h : list top), twf_hist h ->
+Theorem table_view_spec : forall (f : A -> vcell) (h : list (gtop A)), twf_hist h ->
   table_view f (trun h) = spec_table_view f (tspec_run h).
 Proof.
   intros f h W. destruct (props_inv h W) as [[EA _] [ES _]].
@@ -175,7 +177,7 @@ Proof.
 Qed.
 
 (* ---- and it is well formed (what every renderer theorem asks of a view) *)
-Theorem table_view_wf : forall (f : Cell.item -> vcell) (h : list top), twf_hist h -> wf_view (table_view f (trun h)).
+Theorem table_view_wf : forall (f : A -> vcell) (h : list (gtop A)), twf_hist h -> wf_view (table_view f (trun h)).
 Proof.
   intros f h W. destruct (props_inv h W) as [[EA _] [ES _]].
   pose proof (view_wf f (core_ops h) W) as (H1 & H2 & _ & _).
@@ -185,4 +187,4 @@ Proof.
   - rewrite EA, map_length, seq_length. reflexivity.
   - rewrite ES, map_length, seq_length. reflexivity.
 Qed.
-
+End Generic.
